@@ -423,6 +423,42 @@ class State:
                 continue
             if self.entails_ineq_fm(r) and self.entails_ineq_fm(-r):
                 return True
+        return self.enum_conflict()
+
+    def enum_conflict(self):
+        """two locations that the equalities identify (x - y = 0) cannot hold different members of a finite value set:
+        the intersection of the value sets of every such class must be inhabited"""
+        parent = {}
+
+        def find(x):
+            while parent.get(x, x) != x:
+                parent[x] = parent.get(parent[x], parent[x])
+                x = parent[x]
+            return x
+        linked = False
+        for row in self.rows.values():
+            if row.c == 0 and len(row.t) == 2:
+                (a, ca), (b, cb) = row.t.items()
+                if ca + cb == 0 and abs(ca) == 1:
+                    parent[find(a)] = find(b)
+                    linked = True
+        if not linked:
+            return False
+        classes = {}
+        for x in list(parent) + [v for v in parent.values()]:
+            classes.setdefault(find(x), set()).add(x)
+        for members in classes.values():
+            allowed, excluded = None, set()
+            for m in members:
+                e = self.enums.get(m)
+                if not e:
+                    continue
+                if e[0] == "in":
+                    allowed = set(e[1]) if allowed is None else (allowed & set(e[1]))
+                else:
+                    excluded |= set(e[1])
+            if allowed is not None and not (allowed - excluded):
+                return True
         return False
 
     def lower_bound(self, e):
